@@ -20,3 +20,10 @@ class Rec(t.NamedTuple):
 
 
 type ItemAlias = Item
+
+
+def unmarshal_here(ref, x):
+    """Issue a string reference from *this* module."""
+    import typelib
+
+    return typelib.unmarshal(ref, x)
